@@ -52,7 +52,7 @@ m = {
    "kind_free_text": "deterministic simulation: synchronous CAN-bus histories with faults already applied, independent format gateways, virtual wall clock, in-memory dump file system; real decoder/encoder instances as listeners"}],
  "checks": [],
  "not_applicable": [{"property_id": k, "reason": v} for k, v in NA.items()],
- "notes": "All checks: ./vcheck run <ID> [--tier quick|thorough]; VERIF_SEED, VERIF_TIER, VERIF_REPO, VERIF_JOBS honoured. Exit 0 held / 1 VIOLATION / 2 harness error. Replays under out/replays. known_findings.json lists nine defects found by these checks and repaired in /repo with 'fix:' commits (all status fixed: nothing is suppressed)."
+ "notes": "All checks: ./vcheck run <ID> [--tier quick|thorough]; VERIF_SEED, VERIF_TIER, VERIF_REPO, VERIF_JOBS honoured. Exit 0 held / 1 VIOLATION / 2 harness error. Replays under out/replays. known_findings.json lists thirteen defects found by these checks and repaired in /repo with 'fix:' commits (all status fixed: nothing is suppressed)."
 }
 for pid, (engine, ref, text, note) in CHECKS.items():
     m["checks"].append({
